@@ -435,7 +435,13 @@ fn quote(s: &str, st: &mut Style) {
             }
             c if (c as u32) >= 0x10000 && sel % 8 == 7 => {
                 let v = c as u32 - 0x10000;
-                out.push_str(&format!("\\u{:04X}\\u{:04x}", 0xD800 + (v >> 10), 0xDC00 + (v & 0x3FF)));
+                let (hi, lo) = (0xD800 + (v >> 10), 0xDC00 + (v & 0x3FF));
+                match sel >> 9 & 3 {
+                    0 => out.push_str(&format!("\\u{hi:04X}\\u{lo:04x}")),
+                    1 => out.push_str(&format!("\\u{{{hi:04x}}}\\u{{{lo:04X}}}")),
+                    2 => out.push_str(&format!("\\u{hi:04x}\\u{{{lo:04x}}}")),
+                    _ => out.push_str(&format!("\\u{{{hi:04X}}}\\u{lo:04X}")),
+                }
             }
             c => out.push(c),
         }
@@ -958,7 +964,11 @@ fn gen_plain_step(front: Option<&M>, r: &mut Rnd) -> Step {
         Some(M::Arr(a)) => match r.below(10) {
             0 | 1 | 2 => Step::BrWild,
             3 => Step::DotWild,
-            4 => gen_field(&[], r),
+            4 => {
+                // a member step on an array, named like one of its own string elements
+                let strs: Vec<String> = a.iter().filter_map(|x| if let M::Str(s) = x { Some(s.clone()) } else { None }).collect();
+                gen_field(&strs, r)
+            }
             _ => {
                 let n = 1 + r.below(3);
                 Step::Indices(
@@ -1090,9 +1100,12 @@ pub fn derive_path_ast(doc: &M, ch: &[u16]) -> PathAst {
                 format!("$[0] % $.{name}"),
                 format!("exists(@.{name})"),
                 "exists(@)".to_string(),
+                "exists(@ ? (@ > 3))".to_string(),
+                "exists(@?(@ == $))".to_string(),
+                "exists(@[*] ? (@ >= 0)) || $ == null".to_string(),
                 format!("$.{name} == 1 && exists(@[*])"),
                 "+$[*]".to_string(),
-            ][r.below(8)]
+            ][r.below(11)]
             .clone();
             return PathAst::Predicate(Expr::Unsupported(t));
         }
